@@ -6,6 +6,7 @@ import (
 	"fmt"
 	"math"
 	"sort"
+	"strconv"
 	"strings"
 
 	"github.com/risor-io/risor/ast"
@@ -101,6 +102,10 @@ func New(options ...Option) (*Compiler, error) {
 			name:    "__main__",
 			symbols: NewSymbolTable(),
 		}
+	} else {
+		// The functions are numbered, and the numbers are their ids in the
+		// stored form: go on after the highest one that the code has already
+		c.funcIndex = highestFunctionIndex(c.main)
 	}
 	// Insert any supplied names for globals into the symbol table
 	sort.Strings(c.globalNames)
@@ -115,6 +120,21 @@ func New(options ...Option) (*Compiler, error) {
 	// Start compiling into the main code object
 	c.current = c.main
 	return c, nil
+}
+
+// highestFunctionIndex returns the highest number that a function of the code,
+// at any depth, has as its id (0 if there is none).
+func highestFunctionIndex(code *Code) int {
+	highest := 0
+	for _, child := range code.children {
+		if index, err := strconv.Atoi(child.functionID); err == nil && index > highest {
+			highest = index
+		}
+		if index := highestFunctionIndex(child); index > highest {
+			highest = index
+		}
+	}
+	return highest
 }
 
 // Code returns the compiled code for the entrypoint.
